@@ -529,7 +529,9 @@ class Check(PropertyCheck):
                   "model: is_valid_host of any name without xn-- is a closed expression, no library answer), toUnicode_congr / "
                   "decodeIdna_congr / validHostN_congr / validHostN_lib_free / toUnicode_roundtrip / validHost_alabel_example (the "
                   "idna codec — punycode, ToASCII/ToUnicode, Codec.decode — transcribed; only nameprep is a parameter, asked only "
-                  "about punycode-decoded xn-- labels), starts_table_is_function + starts_three_bytes_suffice (the probed starts_like_*_record table equals "
+                  "about punycode-decoded xn-- labels), nameprep_bucher / validHost_alabel_outright / validHostFull_closed_form / sni_full "
+                  "(nameprep itself — map, NFKC as ucd_3_2_0 computes it, prohibit, bidi — inside the model on tables regenerated "
+                  "from the interpreter: validHostFull has NO parameter), starts_table_is_function + starts_three_bytes_suffice (the probed starts_like_*_record table equals "
                   "the source expression transcribed from the AST on every byte string) — all for ALL byte strings (induction, "
                   "no bounds); record_any_size_accepted / record_header_prefix_incomplete (no record-size bound below 65535: examples at "
                   "2^14, 2^14+1, 65535). DTLS handshake *fragmentation* is stated in full, proved only for unfragmented flights "
@@ -542,8 +544,14 @@ class Check(PropertyCheck):
                   "supplied), validHostT (ipaddress = C22.parseIp in the model, decoded idna text supplied) and validHostN (idna "
                   "codec in the model: punycode decode/encode, ToASCII, ToUnicode, Codec.decode transcribed from CPython 3.12; "
                   "supplied: only encodings.idna.nameprep = stringprep tables + NFKC, for the punycode-decoded xn-- labels, with a "
-                  "two-default run that reports any other question as lib-miss). The one remaining parameter is nameprep "
-                  "(Unicode data of the interpreter). starts_like_*_record: "
+                  "two-default run that reports any other question as lib-miss). A fourth level, validHostFull, also computes nameprep (algorithms of "
+                  "Modules/unicodedata.c nfd_nfkd/nfc_nfkc and encodings/idna.py transcribed; per-character data — stringprep B.1/B.2/"
+                  "C.x/D.x, NFKD per character of ucd_3_2_0, combining classes and composition pairs of the current database — "
+                  "regenerated from the running interpreter into Gen/C13_Np.lean, reused while the interpreter identity hash is "
+                  "unchanged and always rebuilt in the thorough tier): no library answer is supplied to it; it is tied by the case "
+                  "kind nprep (model nameprep vs encodings.idna.nameprep; one-off: all 1,114,112 single code points and 300,000 "
+                  "strings agreed) and by op vhostF on every host name. No parameter is left in is_valid_host; what is assumed is "
+                  "that the probed per-character tables are what the C normaliser reads. starts_like_*_record: "
                   "Gen holds both the AST transcription and the probed behaviour, Lean proves them equal. The ground-truth "
                   "oracle demands the exact SNI only for a single host_name entry that is an RFC 6066 LDH host name (or no "
                   "host_name entry: None); for other names it only demands None-or-one-of-the-offered-host_names. "
@@ -559,10 +567,11 @@ class Check(PropertyCheck):
             "2-record split x every prefix; real: ssl/pyOpenSSL memory-BIO ClientHellos (TLS1.3, TLS1.2-only, DTLS, big DTLS "
             "flights that OpenSSL fragments) re-chunked and cut; msg: arbitrary/mutated handshake bytes under two chunkings; "
             "boundary: hellos padded so that one record is exactly 16383/16384/16385/32768/65535 bytes (and splits around them, "
-            "message lengths up to 2^16+); bytes: single-field mutants, truncations and raw random bytes. distinct = digest of (dtls, wire bytes, cuts); "
+            "message lengths up to 2^16+); nprep: code point strings (any single code point; mixes of combining marks, jamo, RTL, compatibility forms) for "
+            "the nameprep tie; bytes: single-field mutants, truncations and raw random bytes. distinct = digest of (dtls, wire bytes, cuts); "
             "non-trivial = non-empty input.")
-    budget = {"quick": 2600, "thorough": 100000}
-    time_budget = {"quick": 30, "thorough": 600}
+    budget = {"quick": 2600, "thorough": 80000}
+    time_budget = {"quick": 30, "thorough": 480}
     fingerprints = [
         "mitmproxy.proxy.layers.tls:handshake_record_contents", "mitmproxy.proxy.layers.tls:get_client_hello",
         "mitmproxy.proxy.layers.tls:parse_client_hello", "mitmproxy.proxy.layers.tls:dtls_handshake_record_contents",
@@ -570,6 +579,7 @@ class Check(PropertyCheck):
         "mitmproxy.proxy.layers.tls:ClientTLSLayer.receive_handshake_data",
         "mitmproxy.net.tls:starts_like_tls_record", "mitmproxy.net.tls:starts_like_dtls_record",
         "mitmproxy.net.check:is_valid_host", "encodings.idna:ToUnicode", "encodings.idna:ToASCII", "encodings.idna:Codec.decode",
+        "encodings.idna:nameprep", "stringprep:map_table_b2", "stringprep:in_table_b1", "stringprep:in_table_d1", "stringprep:in_table_d2",
         "encodings.punycode:punycode_decode", "encodings.punycode:punycode_encode", "encodings.punycode:insertion_sort", "encodings.punycode:adapt",
         "mitmproxy.tls:ClientHello.__init__", "mitmproxy.tls:ClientHello.sni", "mitmproxy.tls:ClientHello.alpn_protocols",
         "mitmproxy.tls:ClientHello.extensions", "mitmproxy.tls:ClientHello.cipher_suites",
@@ -577,7 +587,7 @@ class Check(PropertyCheck):
         "mitmproxy.contrib.kaitaistruct.dtls_client_hello:DtlsClientHello",
     ]
     trusted_base = ["kaitaistruct 0.11 KaitaiStream (read_u1/u2be/u4be/read_bytes raise EOFError exactly when short; is_eof)",
-                    "encodings.idna.nameprep (stringprep tables, unicodedata NFKC) for punycode-decoded xn-- labels: the only library parameter of validHostN; real answers used in the tie",
+                    "per-character Unicode data of the interpreter (stringprep tables, ucd_3_2_0 NFKD of single characters, unicodedata.combining, canonical composition pairs) probed into Gen/C13_Np.lean; the string-level nameprep/NFKC algorithms are transcribed and tied (kind nprep, op vhostF)",
                     "C22.parseIp as the transcription of ipaddress.ip_address (tied by C22's own differential run and here through op vhostT/vhostN)",
                     "re semantics of rb'[A-Z\\d\\-_]{1,63}$' with IGNORECASE on bytes (transcribed as labelValid, tied by op vhost)",
                     "CPython ssl / pyOpenSSL clients as sources of real ClientHellos"]
